@@ -170,7 +170,7 @@ fn wsum(weights: &[u64], mask: impl Iterator<Item = bool>) -> u128 {
     weights.iter().zip(mask).filter(|(_, b)| *b).map(|(w, _)| *w as u128).sum()
 }
 
-fn check(case: &Case, st: &mut Stats) -> Result<(), String> {
+pub fn check(case: &Case, st: &mut Stats) -> Result<(), String> {
     check_inner(case, st, false)
 }
 
@@ -524,7 +524,7 @@ fn pick_subset_at_most(ch: &mut Choices, weights: &[u64], max: u128, avoid: &[bo
     m
 }
 
-fn gen_case(ch: &mut Choices, nmax: usize) -> Case {
+pub fn gen_case(ch: &mut Choices, nmax: usize) -> Case {
     let n = 1 + ch.below(nmax);
     let weights: Vec<u64> = match ch.below(5) {
         0 | 1 => vec![1; n],
@@ -594,7 +594,7 @@ pub struct RuleCase {
     reports: Vec<Option<(Option<(u64, u8)>, Option<(u64, u64)>)>>,
 }
 
-fn gen_rule_case(ch: &mut Choices) -> RuleCase {
+pub fn gen_rule_case(ch: &mut Choices) -> RuleCase {
     let n = 1 + ch.below(8);
     let weights: Vec<u64> = (0..n).map(|_| if ch.bool() { 1 } else { ch.range(1, 5) }).collect();
     let first = ch.range(0, 3);
@@ -618,7 +618,7 @@ fn gen_rule_case(ch: &mut Choices) -> RuleCase {
     RuleCase { weights, first, reports }
 }
 
-fn check_rules(case: &RuleCase, st: &mut Stats) -> Result<(), String> {
+pub fn check_rules(case: &RuleCase, st: &mut Stats) -> Result<(), String> {
     let spec = spec_of(&case.weights);
     let c = committee(&case.weights);
     let n = case.weights.len();
